@@ -396,3 +396,61 @@ def guard_of_assign(repo, spec):
 
 
 register_extractor('guard_of_assign', guard_of_assign)
+
+
+# ---------------------------------------------------------------- numeric tables and verdict guard (C15)
+def _num_dict_text(name, node, where, sha):
+    from fractions import Fraction
+    if not isinstance(node, ast.Dict):
+        raise TranslateError(f"{where}: {name} is not a dict literal")
+    items = []
+    for k, v in zip(node.keys, node.values):
+        if not (isinstance(k, ast.Constant) and isinstance(k.value, str) and isinstance(v, ast.Constant)
+                and isinstance(v.value, (int, float)) and not isinstance(v.value, bool)):
+            raise TranslateError(f"{where}: {name} has a non-literal entry")
+        fr = Fraction(repr(v.value))
+        items.append(f"({coq_string(k.value)}, ({fr.numerator}%Z, {fr.denominator}%Z))")
+    return (f"(* {name} <- {where} sha256={sha} *)\n"
+            f"Definition {name} : list (string * (Z * Z)) := [{'; '.join(items)}].\n")
+
+
+def num_dict(repo, spec):
+    """module-level dict of string -> number, as exact fractions"""
+    src = Source(repo, spec['file'])
+    node = src.find_assign(spec['var'])
+    where, sha = src.stamp(node)
+    return _num_dict_text(spec['name'], node.value, where, sha), {'name': spec['name'], 'where': where, 'sha256': sha}
+
+
+def default_num_dict(repo, spec):
+    """default value (dict literal) of a keyword argument"""
+    src = Source(repo, spec['file'])
+    fn = src.find_def(spec['func'])
+    args = fn.args.args
+    defaults = fn.args.defaults
+    pairs = dict(zip([a.arg for a in args[len(args) - len(defaults):]], defaults))
+    if spec['arg'] not in pairs:
+        raise TranslateError(f"{spec['file']}: {spec['func']} has no default for {spec['arg']}")
+    where, sha = src.stamp(pairs[spec['arg']])
+    return _num_dict_text(spec['name'], pairs[spec['arg']], where, sha), {'name': spec['name'], 'where': where, 'sha256': sha}
+
+
+def return_guard(repo, spec):
+    """test of the unique `if` whose body is exactly the given return statement"""
+    src = Source(repo, spec['file'])
+    fn = src.find_def(spec['func'])
+    hits = [n for n in ast.walk(fn) if isinstance(n, ast.If) and len(n.body) == 1 and ast.unparse(n.body[0]) == spec['returns']
+            and not n.orelse]
+    if len(hits) != 1:
+        raise TranslateError(f"{spec['file']}: expected one `if ...: {spec['returns']}` in {spec['func']}, found {len(hits)}")
+    final = fn.body[-1]
+    where, sha = src.stamp(hits[0])
+    text = (f"(* {spec['name']} <- {where} sha256={sha} *)\n"
+            f"Definition {spec['name']} : string := {coq_string(ast.unparse(hits[0].test))}.\n"
+            f"Definition {spec['name']}_final : string := {coq_string(ast.unparse(final))}.\n")
+    return text, {'name': spec['name'], 'where': where, 'sha256': sha}
+
+
+register_extractor('num_dict', num_dict)
+register_extractor('default_num_dict', default_num_dict)
+register_extractor('return_guard', return_guard)
